@@ -15,6 +15,7 @@ Decided
   D1  None values are dropped before writing; a later file / row overrides an earlier one per field and cluster
   +   the metadata writer and reader use the same csv dialect (quoting, quote / escape characters); the subset store is never half-loaded
       (existence test on all three files, or every read inside a handler that answers "no store")
+  +   prerequisite: the export and lookup routes of the waveform subset (C03.S2, Y4, Y1, A1, A2, P1) hold - "subset-store waveforms equal those read from the raw data"
 Not decided: overwrite semantics across histories at value level, cell typing (C18), the waveforms themselves (C03).
 """
 import ast
@@ -371,6 +372,26 @@ def t1_agreement(ctx):
             'the subset store is loaded although one of its files may be missing, and the missing file is not turned into "no store"', 'the existence test of the subset store was not recognised')
 
 
+def t1_store_waveforms(ctx):
+    """"the spike waveform subset is saved and reloaded, with the subset-store waveforms equal to those read from the raw data": what the export writes (C03.S2, Y4, Y1 / A1 / P1)
+    and what the lookup returns for a stored spike (C03.A1, A2) are the obligations of C03 on those two routes; they are prerequisites here."""
+    from vlib import report
+    from obligations import C03
+    sub = report.Ctx('C03', ctx.repo, ctx.tier, ctx.seed)
+    C03.run(sub)
+    rules = ('C03.S2', 'C03.Y4', 'C03.Y1', 'C03.A1', 'C03.A2', 'C03.P1')
+    rel = [o for o in sub.obs if o.rule in rules]
+    bad = [o for o in rel if o.status == 'violated']
+    for o in bad[:3]:
+        ctx.obs.append(report.Ob('C10.T1', o.where, 'violated', 'the subset store does not hold / return the waveforms read from the raw data (%s): %s' % (o.rule, o.detail), o.construct, o.line))
+    if not bad:
+        if any(o.status == 'holds' for o in rel):
+            ctx.holds('C10.T1', M + ':TemplateModel.save_spikes_subset_waveforms', 'export and lookup routes of the waveform subset: %d obligations of C03 (S2, Y4, Y1, A1, A2, P1) hold (%d undecided)' %
+                      (len([o for o in rel if o.status == 'holds']), len([o for o in rel if o.status == 'undecided'])), 'subset store waveforms')
+        else:
+            ctx.undecided('C10.T1', M + ':TemplateModel.save_spikes_subset_waveforms', 'the export / lookup routes of the waveform subset (C03) were not decided')
+
+
 def p1_d1(ctx):
     repo = ctx.repo
     cls = repo.cls(M, 'TemplateModel')
@@ -455,6 +476,7 @@ def run(ctx):
     t1_agreement(ctx)
     p1_d1(ctx)
     # metadata values (integers, floats, strings) come back through _try_make_number: its contract is a prerequisite of "the last saved mapping is shown"
+    ctx.part('C10.T1', t1_store_waveforms)
     from obligations.C18 import number_recovery, csv_dialect_agreement
     ctx.part('C10.T1', number_recovery, 'C10.T1')
     # the metadata files are written by _write_tsv_simple and read by _read_tsv_simple: a label with a tab, a quote or a line break survives only if the two agree on the dialect
